@@ -106,19 +106,40 @@ type waiter struct {
 }
 
 func cycleSig(ws []waiter) string {
+	n := len(ws)
+	// wait-for graph: i -> j if i wants a lock j holds
+	reach := make([][]bool, n)
+	for i := range reach {
+		reach[i] = make([]bool, n)
+		for j := range ws {
+			if _, ok := ws[j].held[ws[i].want]; ok {
+				reach[i][j] = true
+			}
+		}
+	}
+	for k := 0; k < n; k++ {
+		for i := 0; i < n; i++ {
+			for j := 0; j < n; j++ {
+				if reach[i][k] && reach[k][j] {
+					reach[i][j] = true
+				}
+			}
+		}
+	}
+	// only the goroutines ON a cycle name the deadlock (those queued up behind it do not)
 	items := map[string]bool{}
 	for i, w := range ws {
+		if !reach[i][i] {
+			continue
+		}
 		var hc []string
 		for j, o := range ws {
-			if i == j {
+			if !(reach[i][j] && reach[j][i]) { // same strongly connected component (i == j: self-deadlock)
 				continue
 			}
 			if c, ok := w.held[o.want]; ok {
 				hc = append(hc, c)
 			}
-		}
-		if _, self := w.held[w.want]; self {
-			hc = append(hc, w.held[w.want])
 		}
 		if len(hc) == 0 {
 			continue
